@@ -8,6 +8,7 @@
  * after a destroy: number of base regions still live (every region returned exactly once; a
  * double free aborts inside trkm).  internal = exact address of the block as `R<region>+<offset>`
  * and the number of live base regions.  The model driver (lean/Driver/C09.lean) prints the same. */
+#define USE_INTERNAL_REGEX 1      /* usual/regex.c keeps its mempool handle inside the pool (rx op) */
 #include <usual/base.h>
 #include <usual/cxalloc.h>
 #include "hcommon.h"
@@ -29,6 +30,9 @@ static void h_free(void *p) { trkm_free(NULL, p); }
 #include "usual/mempool.c"
 #undef calloc
 #undef free
+/* the internal regex engine: its only use of the mempool goes to the copy included above (base
+ * allocator = trkm); regcomp stores the pool handle inside the pool's first block */
+#include "usual/regex.c"
 
 /* reallocarray of usual/base.c (the platform has its own, so it is renamed) with `realloc`
  * replaced by a spy that records the byte count */
@@ -613,6 +617,37 @@ int main(void)
 			U(1, s);
 			if (s >= NSLOT || slots[s].kind) BAD;
 			slots[s].kind = K_MP; slots[s].mp = NULL;
+			printf("ok ## live=%ld\n", trkm_live);
+			goto next;
+		}
+		if (n == 3 && !strcmp(w[0], "mdin")) {
+			/* mempool_destroy(&handle) with the handle variable stored INSIDE block b of the pool */
+			U(1, s); U(2, b);
+			struct MemPool **hp; int i;
+			if (s >= NSLOT || slots[s].kind != K_MP || b >= NBLK || !blks[b].live || blks[b].slot != (int)s
+			    || blks[b].len < sizeof(struct MemPool *)) BAD;
+			for (i = 0; i < NBLK; i++) if (blks[i].live && blks[i].slot == (int)s) blks[i].live = 0;
+			hp = (struct MemPool **)blks[b].ptr;
+			*hp = slots[s].mp;
+			mempool_destroy(hp);
+			memset(&slots[s], 0, sizeof slots[s]);
+			printf("live=%ld ct=%d ## -\n", trkm_live, check_all());
+			goto next;
+		}
+		if (n == 3 && !strcmp(w[0], "rx")) {
+			/* regcomp + regexec + regfree of the internal regex: `reps` copies of a group; every
+			 * mempool block it took from the base allocator must be back afterwards */
+			U(1, reps); U(2, mis);
+			long live0 = trkm_live, seq0 = trkm_seq; size_t j; char *pat_; regex_t rx; int rc;
+			if (reps > 5000) BAD;
+			trkm_next_mis = mis;
+			pat_ = malloc(reps * 8 + 8); pat_[0] = 0;
+			for (j = 0; j < reps; j++) strcat(pat_ + j * 7, "(ab|c)d");
+			strcat(pat_, "e");
+			rc = regcomp(&rx, pat_, REG_EXTENDED);
+			if (rc == 0) { regmatch_t m[2]; regexec(&rx, "abdcde", 2, m, 0); regfree(&rx); }
+			free(pat_);
+			if (trkm_live == live0) trkm_seq = seq0;     /* nothing left: the model sees no base request */
 			printf("ok ## live=%ld\n", trkm_live);
 			goto next;
 		}
